@@ -61,3 +61,14 @@ package eth
 //@   loop#1 invariant len(l.Topics) == len((*other).Topics) && (len(l.Topics) == 0 || base(l.Topics) != base((*other).Topics))
 //@   loop#1 invariant forall k int :: 0 <= k && k < len((*other).Topics) ==> (*other).Topics[k] == old((*other).Topics[k])
 //@   loop#1 invariant forall k int :: rangeindex < k && k < len(l.Topics) ==> cap(l.Topics[k]) == 0 && base(l.Topics[k]) == 0
+
+// C08/C04: the transactions of a block form a set keyed by transaction index:
+// Tx returns the entry with that index, appending an empty one exactly when
+// none exists; entries already present keep their index and position.
+//@ func (*Block).Tx props=C08,C04
+//@   requires b != nil
+//@   ensures [returns-that-index] result != nil && (*result).Idx == idx
+//@   ensures [kept] len((*b).Txs) >= old(len((*b).Txs)) && (forall k int :: 0 <= k && k < old(len((*b).Txs)) ==> (*b).Txs[k].Idx == old((*b).Txs[k].Idx))
+//@   ensures [no-duplicate] (exists k int :: 0 <= k && k < old(len((*b).Txs)) && uint64(old((*b).Txs[k].Idx)) == idx) ==> len((*b).Txs) == old(len((*b).Txs))
+//@   ensures [added-when-absent] (forall k int :: 0 <= k && k < old(len((*b).Txs)) ==> uint64(old((*b).Txs[k].Idx)) != idx) ==> len((*b).Txs) == old(len((*b).Txs)) + 1 && uint64((*b).Txs[len((*b).Txs) - 1].Idx) == idx
+//@   loop#0 invariant forall k int :: 0 <= k && k <= rangeindex ==> uint64((*b).Txs[k].Idx) != idx
